@@ -58,6 +58,7 @@ class Seams:
         self.slept = 0.0
         self._rand = None
         self.user = 'simuser'
+        self._home = None
 
     # -- sources ------------------------------------------------------------------------
     def urandom(self, n):
@@ -89,6 +90,10 @@ class Seams:
         t_auth.os = _OsShim(self)
         t_auth.time = _TimeShim(self)
         t_auth.BusCookieAuthenticator.cookieContext = 'org_twisteddbus_ctxSIM'
+        self.saved['gc_defaults'] = (t_auth.BusCookieAuthenticator._get_cookies.__defaults__,
+                                     t_auth.BusCookieAuthenticator._create_cookie.__defaults__)
+        t_auth.BusCookieAuthenticator._get_cookies.__defaults__ = (self.wallclock,)
+        t_auth.BusCookieAuthenticator._create_cookie.__defaults__ = (self.wallclock,)
         t_iface.DBusInterface.knownInterfaces = dict(KNOWN_AT_IMPORT)
         gc.disable()
         txlog.addObserver(self._observe)
@@ -97,6 +102,7 @@ class Seams:
     def restore(self):
         if not self.installed:
             return
+        self._restore_home()
         txlog.removeObserver(self._observe)
         t_client.reactor = self.saved['reactor']
         t_msg.DBusMessage._nextSerial = self.saved['serial']
@@ -106,6 +112,8 @@ class Seams:
         t_auth.time = self.saved['auth_time']
         t_proto._is_linux = self.saved['is_linux']
         t_auth.BusCookieAuthenticator.cookieContext = self.saved['ctx']
+        (t_auth.BusCookieAuthenticator._get_cookies.__defaults__,
+         t_auth.BusCookieAuthenticator._create_cookie.__defaults__) = self.saved['gc_defaults']
         if self.saved['gc']:
             gc.enable()
         self.installed = False
@@ -119,6 +127,67 @@ class Seams:
 
     def set_linux(self, flag):
         t_proto._is_linux = flag
+
+    # -- synthetic user with a scratch home directory (real files, private) --------------
+    def home(self):
+        """Create (once per run) the scratch home of the synthetic user and point HOME,
+        getpass and pwd at it.  Returns the path."""
+        if self._home is not None:
+            return self._home
+        import getpass
+        import pwd
+        import shutil
+        base = os.environ.get('VERIF_SCRATCH') or '/dev/shm/txdbus-sim-%d' % os.getppid()
+        path = os.path.join(base, 'w%d' % os.getpid())
+        shutil.rmtree(path, ignore_errors=True)
+        os.makedirs(path, 0o700)
+        self._home = path
+        self.saved.update(HOME=os.environ.get('HOME'), getpass=t_auth.getpass,
+                          getpwnam=pwd.getpwnam, getpwuid=pwd.getpwuid)
+        os.environ['HOME'] = path
+        user = self.user
+        ent = pwd.struct_passwd((user, 'x', os.geteuid(), os.getegid(), 'sim', path, '/bin/sh'))
+
+        class _GP:
+            @staticmethod
+            def getuser():
+                return user
+
+        def getpwnam(name):
+            if name == user:
+                return ent
+            raise KeyError(name)
+
+        def getpwuid(uid):
+            if uid in (os.geteuid(), 1000):
+                return ent
+            raise KeyError(uid)
+        t_auth.getpass = _GP
+        pwd.getpwnam = getpwnam
+        pwd.getpwuid = getpwuid
+        return path
+
+    def keyring(self, create=True, mode=0o700):
+        d = os.path.join(self.home(), '.dbus-keyrings')
+        if create and not os.path.isdir(d):
+            os.mkdir(d, mode)
+            os.chmod(d, mode)
+        return d
+
+    def _restore_home(self):
+        if self._home is None:
+            return
+        import pwd
+        import shutil
+        if self.saved.get('HOME') is None:
+            os.environ.pop('HOME', None)
+        else:
+            os.environ['HOME'] = self.saved['HOME']
+        t_auth.getpass = self.saved['getpass']
+        pwd.getpwnam = self.saved['getpwnam']
+        pwd.getpwuid = self.saved['getpwuid']
+        shutil.rmtree(self._home, ignore_errors=True)
+        self._home = None
 
     # -- per-node process globals -------------------------------------------------------
     def swap_in(self, node):
